@@ -440,3 +440,55 @@ def conflict_and_run(seed, on_job=None, mode=None, cfg_override=None, fault_for=
     finally:
         world.close()
     return {'cfg': cfg, 'events': events, 'seed': seed, 'family': 'conflict'}, log
+
+
+def queue_matrix_and_run(seed, on_job=None, mode=None, cfg_override=None, fault_for=None):
+    """Queue-matrix family: two or three pull requests on different destinations are all queued first (integration
+    builds green), then every queue commit gets a status drawn independently (a third of them not SUCCESSFUL),
+    the queue is evaluated, some statuses are repaired and it is evaluated again - the system-level counterpart
+    of the exhaustive status matrices of C05."""
+    rng = random.Random(seed * 32452843 + 11)
+    cfg = gen_cfg(rng, mode if mode in ('queue', 'skip') else 'queue')
+    if len(dest_names(cfg['layout'])[0]) < 2:
+        cfg['layout'] = rng.choice([l for l in LAYOUTS if len(dest_names(l)[0]) >= 3])
+    cfg.update({'peers': 0, 'leaders': 0, 'need_author': False, 'build_key': 'pre-merge', 'use_queue': True})
+    if cfg_override:
+        cfg.update(cfg_override)
+    world = sysworld.World(cfg)
+    events, log = [], []
+
+    def do(ev):
+        events.append(ev)
+        sub = run_history(world, [ev], on_job=on_job, fault_for=fault_for)
+        log.extend(sub)
+        return sub[0]
+    try:
+        gen = Gen(rng, cfg)
+        n = rng.choice([2, 3, 3])
+        dsts = gen.dests + gen.hot
+        for i in range(n):
+            ev = gen.new_pr()
+            ev['dst'] = rng.choice(dsts)
+            ev.pop('file', None)
+            ev.pop('content', None)
+            gen.prs[-1]['dst'] = ev['dst']
+            gen.prs[-1]['id'] = do(ev).get('res', {}).get('pr')
+        for p in gen.prs:                      # queue them all, in order
+            if p['id'] is None:
+                continue
+            do({'e': 'job_pr', 'pr': p['id']})
+            for nme in gen.tips_of(p, world.refs()):
+                do({'e': 'build', 'ref': nme, 'state': 'SUCCESSFUL'})
+            do({'e': 'job_pr', 'pr': p['id']})
+        for rounds in range(3):
+            q = sorted(n_ for n_ in world.refs() if n_.startswith('q/w/'))
+            if not q:
+                break
+            for nme in q:
+                if rounds == 0 or rng.random() < 0.5:
+                    st = 'SUCCESSFUL' if rng.random() < (0.65 + 0.15 * rounds) else rng.choice(STATES[1:])
+                    do({'e': 'build', 'ref': nme, 'state': st})
+            do({'e': 'job_commit', 'ref': rng.choice(q)})
+    finally:
+        world.close()
+    return {'cfg': cfg, 'events': events, 'seed': seed, 'family': 'queue_matrix'}, log
